@@ -194,7 +194,8 @@ class LineFileBase(SeqProp):
                             f += arg
                         out.append("ok")
                     elif k == "pop":
-                        out.append("ret " + enc_str(unwrap(f.pop(int(w[1])))))
+                        # pop() without an argument takes the last line
+                        out.append("ret " + enc_str(unwrap(f.pop() if (w[1] == "-1" and len(out) % 2) else f.pop(int(w[1])))))
                     elif k == "remove":
                         f.remove(wrap(dec_str(w[1]))); out.append("ok")
                     elif k == "reverse":
